@@ -4,7 +4,7 @@ set -e
 REPO="${VERIF_REPO:-/repo}"
 BUILD="${VERIF_BASELINE_BUILD:-$REPO/_build}"
 if [ ! -f "$BUILD/build.ninja" ] && [ ! -f "$BUILD/Makefile" ]; then
-  cmake -G Ninja -S "$REPO" -B "$BUILD" >/dev/null
+  cmake -G Ninja -DCMAKE_BUILD_TYPE=RelWithDebInfo -DCMAKE_CXX_FLAGS=-Wno-error -S "$REPO" -B "$BUILD" >/dev/null
 fi
 cmake --build "$BUILD"
 ctest --test-dir "$BUILD" -j8 --timeout 900
